@@ -2,6 +2,7 @@ package main
 
 import (
 	"fmt"
+	"math/rand"
 
 	"golang.org/x/tools/go/ssa"
 )
@@ -96,6 +97,9 @@ func (w *Worker) rtIntrinsic(name string, args []Val) (Val, bool) {
 		return ts.Bool(w.expectPanic(f)), true
 	case "vRandConcrete":
 		w.randConcrete = args[0].(*Term).isTrue()
+		if w.randConcrete {
+			w.rng = rand.New(rand.NewSource(42))
+		}
 		return nil, true
 	case "vCallBounded":
 		// vCallBounded(id, f, unblock): run f; if every thread blocks forever inside, that is a
